@@ -169,9 +169,17 @@ theorem splitOn_lf_noBreak (text : Text) (hno : NoExoticBreaks text) :
 
 /-! ### the run of single-line comments -/
 
-theorem isSingle_of_prefix (s : Style) (rest : Text) : isSingleComment s (s.single ++ rest) = true := by
-  have : startsWith (s.single ++ rest) s.single = true := List.isPrefixOf_iff_prefix.mpr ⟨rest, rfl⟩
-  simp [isSingleComment, this]
+/-- the marker, followed by nothing or by text that does not continue the marker's word, is a comment line -/
+theorem isSingle_of_prefix (s : Style) (rest : Text)
+    (h : wordMarker s.single = false ∨ ((rest.head?).map isWordChar).getD false = false) :
+    isSingleComment s (s.single ++ rest) = true := by
+  have h1 : startsWith (s.single ++ rest) s.single = true := List.isPrefixOf_iff_prefix.mpr ⟨rest, rfl⟩
+  have h2 : (s.single ++ rest).drop s.single.length = rest := List.drop_left' rfl
+  have h3 : startsSingle s (s.single ++ rest) = true := by
+    unfold startsSingle
+    rw [h1, h2]
+    rcases h with h | h <;> simp [h]
+  simp [isSingleComment, h3]
 
 theorem singleRun_all (s : Style) (M X : List Text) (i : Nat) (acc : Option Nat)
     (hM : ∀ m ∈ M, isSingleComment s m = true) :
@@ -192,6 +200,8 @@ theorem singleRun_all (s : Style) (M X : List Text) (i : Nat) (acc : Option Nat)
 def SingleOK (s : Style) : Prop :=
   s.canSingle = true ∧ s.isEmptyStyle = false ∧ NoBreak s.single ∧ NoBreak s.indentAfterSingle ∧
   (match s.singleRe with | some r => nullable r = false | none => True) ∧
+  -- a marker that is a word is set off from the text by an indentation that does not continue the word
+  (wordMarker s.single = false ∨ ((s.indentAfterSingle.head?).map isWordChar).getD true = false) ∧
   (s.canMulti = false ∨
     (NoBreak s.mStart ∧ startsWith s.single s.mStart = false ∧ startsWith (s.single ++ s.indentAfterSingle) s.mStart = false ∧
       startsWith s.mStart (s.single ++ s.indentAfterSingle) = false))
@@ -201,14 +211,14 @@ instance (s : Style) : Decidable (SingleOK s) := by
   cases s.singleRe <;> exact inferInstance
 
 theorem isSingle_nil {s : Style} (h : SingleOK s) : isSingleComment s [] = false := by
-  obtain ⟨hcs, _, _, _, hre, _⟩ := h
+  obtain ⟨hcs, _, _, _, hre, _, _⟩ := h
   have hne : s.single ≠ [] := by
     intro h0; simp [Generated.Style.canSingle, h0] at hcs
   have h1 : startsWith ([] : Text) s.single = false := by
     cases hs : s.single with
     | nil => exact absurd hs hne
     | cons a as => rfl
-  unfold isSingleComment
+  unfold isSingleComment startsSingle
   cases hr : s.singleRe with
   | none => simp [h1]
   | some r =>
@@ -245,7 +255,7 @@ theorem prefix_break_free {p a rest : Text} {c : Char} (hp : p <+: a ++ c :: res
 /-- the created block does not start with the multi-line opener -/
 theorem no_multi_open {s : Style} (h : SingleOK s) (l : Text) (tail : Text) :
     (s.canMulti && startsWith (singleLine s l ++ '\n' :: tail) s.mStart) = false := by
-  obtain ⟨_, _, _, _, _, hm⟩ := h
+  obtain ⟨_, _, _, _, _, _, hm⟩ := h
   rcases hm with hm | ⟨hnb, h1, h2, h3⟩
   · simp [hm]
   · cases hsw : startsWith (singleLine s l ++ '\n' :: tail) s.mStart with
@@ -280,7 +290,7 @@ theorem single_readback {s : Style} (h : SingleOK s) (text : Text) (hno : NoExot
     (hblk : createSingle s text = .ok blk) (rest : Text) (hrest : rest = [] ∨ ∃ r, rest = '\n' :: r) :
     commentAtFirst s (blk ++ '\n' :: rest) = .ok blk := by
   have hS := h
-  obtain ⟨hcs, hes, hnbs, hnbi, _, _⟩ := h
+  obtain ⟨hcs, hes, hnbs, hnbi, _, hword, _⟩ := h
   rw [createSingle_eq hcs] at hblk
   simp only [Except.ok.injEq] at hblk
   obtain ⟨hne, hpieces⟩ := splitOn_lf_noBreak text hno
@@ -297,7 +307,16 @@ theorem single_readback {s : Style} (h : SingleOK s) (text : Text) (hno : NoExot
   have hMsingle : ∀ m ∈ L.map (singleLine s), isSingleComment s m = true := by
     intro m hm
     obtain ⟨l, _, rfl⟩ := List.mem_map.mp hm
-    exact isSingle_of_prefix s _
+    unfold singleLine
+    apply isSingle_of_prefix
+    rcases hword with hw | hw
+    · exact .inl hw
+    · right
+      split
+      · rfl
+      · cases hi : s.indentAfterSingle with
+        | nil => rw [hi] at hw; simp at hw
+        | cons c cs => rw [hi] at hw; simpa using hw
   subst hblk
   have hlines : splitLines (join ['\n'] (L.map (singleLine s)) ++ '\n' :: rest) =
       L.map (singleLine s) ++ splitLinesAux false [] rest := splitLines_join _ hMne hMnb rest
